@@ -538,6 +538,18 @@ fn oracles(ctx: &mut Ctx, case_id: &str, li: usize, f: &Flw, h: &Hist, at_sync_p
 }
 
 pub fn execute(ctx: &mut Ctx, lines: &[String]) -> Vec<String> {
+    let robust = tokens(&lines[0])[1] == "robust";
+    let mut out = execute_inner(ctx, lines);
+    if robust {
+        // robustness cases (C10): only "did it panic / hang / stop logging" is observed
+        for (a, l) in out.iter_mut().zip(lines.iter()) {
+            if !(l.starts_with("CASE") || l.starts_with("END")) && (a == "err" || a.starts_with("ok")) { *a = "ok".into(); }
+        }
+    }
+    out
+}
+
+fn execute_inner(ctx: &mut Ctx, lines: &[String]) -> Vec<String> {
     let case_id = tokens(&lines[0])[2..].join(" ");
     let err_path = ensure_error_channel(ctx);
     let mut ech = ErrChan { path: err_path, seen: 0, seen_errs: 0 };
@@ -565,6 +577,7 @@ pub fn execute(ctx: &mut Ctx, lines: &[String]) -> Vec<String> {
         errchan: ech.path.clone(),
     };
     let mut h = Hist::default();
+    let mut nocheck_foreign = false;
     let mut out = Vec::with_capacity(lines.len());
     for (li, line) in lines.iter().enumerate() {
         let t = tokens(line);
@@ -573,6 +586,7 @@ pub fn execute(ctx: &mut Ctx, lines: &[String]) -> Vec<String> {
         let ans: String = match t.as_slice() {
             ["CASE", ..] => header_answer(line),
             ["END"] => "END".into(),
+            ["NOTE", "nocheck-foreign"] => { f.foreign_content.clear(); nocheck_foreign = true; "ok".into() }
             ["NOTE", ..] => "ok".into(),
             ["SPEC", rest @ ..] if rest.len() == 5 => {
                 f.spec = parse_spec(rest);
@@ -582,6 +596,27 @@ pub fn execute(ctx: &mut Ctx, lines: &[String]) -> Vec<String> {
                 f.cfg = parse_cfg(rest);
                 f.w = None;
                 "ok".into()
+            }
+            // logging continues: one more record is accepted and lands in a file (C10)
+            ["ALIVE", now] => {
+                let now: u64 = now.parse().unwrap();
+                let w = f.ensure().clone();
+                let before: usize = list_dir(&dir, &[]).iter().map(|n| std::fs::metadata(dir.join(n)).map(|m| m.len() as usize).unwrap_or(0)).sum();
+                let r = std::panic::catch_unwind(std::panic::AssertUnwindSafe(|| with_clock(now, || {
+                    let r = LogWriter::write(&*w, &mut DeferredNow::new(), &Record::builder().level(log::Level::Info).args(format_args!("still alive")).build());
+                    let _ = LogWriter::flush(&*w);
+                    r
+                })));
+                let _ = before;
+                let found = list_dir(&dir, &[]).iter().any(|n| { let c = read_file(&dir.join(n)); let raw = std::fs::read(dir.join(n)).unwrap_or_default(); c.windows(11).any(|w| w == b"still alive") || raw.windows(11).any(|w| w == b"still alive") });
+                let _ = ech.new_events();
+                // C10 is about the call returning; where the record ends up is the business of C01/C07
+                let _ = found;
+                match r {
+                    Ok(Ok(())) => "ok".into(),
+                    Ok(_) => { ctx.report.fail(&case_id, "logging-stopped", &format!("line {li}: a record logged after the history did not reach any file")); "lost".into() }
+                    Err(_) => { ctx.report.fail(&case_id, "panic", &format!("line {li}: the log call panicked (directory: {:?})", list_dir(&dir, &[]))); "panic".into() }
+                }
             }
             ["MODE", m] => {
                 let p: Vec<&str> = m.split(':').collect();
@@ -660,7 +695,7 @@ pub fn execute(ctx: &mut Ctx, lines: &[String]) -> Vec<String> {
                     std::fs::create_dir_all(dir.join(n.trim_end_matches('/'))).unwrap();
                 } else {
                     std::fs::write(dir.join(&n), &c).unwrap();
-                    f.foreign_content.insert(n.clone(), c);
+                    if !nocheck_foreign { f.foreign_content.insert(n.clone(), c); }
                 }
                 f.foreign.push(n.trim_end_matches('/').to_string());
                 "ok".into()
@@ -676,7 +711,7 @@ pub fn execute(ctx: &mut Ctx, lines: &[String]) -> Vec<String> {
                 let raw = t[0] == "WRAW";
                 let w = f.ensure().clone();
                 install_faults(plan);
-                let r: std::io::Result<()> = with_clock(now, || {
+                let caught = std::panic::catch_unwind(std::panic::AssertUnwindSafe(|| with_clock(now, || -> std::io::Result<()> {
                     if raw {
                         let mut ww = w.clone();
                         std::io::Write::write(&mut ww, &bytes).map(|_| ())
@@ -686,8 +721,16 @@ pub fn execute(ctx: &mut Ctx, lines: &[String]) -> Vec<String> {
                         let payload = String::from_utf8(bytes[..bytes.len() - le.len()].to_vec()).expect("utf8 payload");
                         LogWriter::write(&*w, &mut DeferredNow::new(), &Record::builder().level(log::Level::Info).args(format_args!("{}", payload)).build())
                     }
-                });
+                })));
                 flexi_logger::verif_hooks::set_fault_handler(None);
+                let r: std::io::Result<()> = match caught {
+                    Ok(r) => r,
+                    Err(_) => {
+                        ctx.report.fail(&case_id, "panic", &format!("line {li}: the log call panicked (directory: {:?})", list_dir(&dir, &[])));
+                        out.push("panic".into());
+                        continue;
+                    }
+                };
                 let ev = ech.new_events();
                 let ok = r.is_ok() && ev.is_empty();
                 if h.trunc_pending {
@@ -713,7 +756,15 @@ pub fn execute(ctx: &mut Ctx, lines: &[String]) -> Vec<String> {
                 ctx.report.count("op.ROT");
                 let w = f.ensure().clone();
                 install_faults(plan);
-                let r = with_clock(now, || w.rotate());
+                let r = match std::panic::catch_unwind(std::panic::AssertUnwindSafe(|| with_clock(now, || w.rotate()))) {
+                    Ok(r) => r,
+                    Err(_) => {
+                        flexi_logger::verif_hooks::set_fault_handler(None);
+                        ctx.report.fail(&case_id, "panic", &format!("line {li}: trigger_rotation panicked (directory: {:?})", list_dir(&dir, &[])));
+                        out.push("panic".into());
+                        continue;
+                    }
+                };
                 flexi_logger::verif_hooks::set_fault_handler(None);
                 let ev = ech.new_events();
                 if r.is_ok() {
